@@ -139,6 +139,9 @@ def _run(ctx, quick):
       "TCP option lists are compared up to the end-of-list option; DHCP pad options and whether repeated DNS names "
       "are compressed carry no information (either serialisation is accepted); ports that select a UDP payload "
       "parser (53, 67, 68, 520, 4789, 5353) are excluded from the free values of plain UDP stacks",
+      "DNS messages whose names share a suffix are free-form (RFC 1035 4.1.4 leaves compression to the sender): the "
+      "spec predicts no bytes for them; TLC feeds its own four styles to the parser (replay) and judges the bytes the "
+      "library packs / re-packs with the relation Encodes / DnsValid (trace validation, PackAs / RepackAs)",
       "harness/c14_wire.py (Python byte builder fed by the TLA+ layout tables) is cross-checked against TLC's "
       "EncStack on every exported case, and by TLC itself on every random packet (Feed event)"]
   import time
@@ -152,6 +155,7 @@ def _run(ctx, quick):
   exs = dict(zip(names, res))
   mcs = {n: exs[n][0] for n in names}
   templates = {}
+  free = []              # free-form stacks (the spec exports only Feed, Parse for them): the sender's half goes to TLC
   agg = collections.Counter()
   for n in names:
     r, behs = exs[n]
@@ -168,6 +172,8 @@ def _run(ctx, quick):
         k = (d["fam"], d["var"])
         if k not in templates or d["n"] < templates[k][0]:
           templates[k] = (d["n"], b[0]["args"]["pkt"])
+      if b[0]["a"] == "Feed" and b[0]["args"].get("free") == 1:
+        free.append(b[0]["args"]["pkt"])
     del behs
   tm["replay"] = round(time.time() - t0, 1)
   fake = tlc.TLCResult()
@@ -179,6 +185,19 @@ def _run(ctx, quick):
   tpl = [templates[k][1] for k in sorted(templates)]
   ntr = 300 if quick else 10000
   items = [(ctx.seed * 1000003 + i, tpl[i % len(tpl)], i % 3 == 2) for i in range(ntr)]
+  # free-form stacks exactly as TLC exported them: once built and packed by the library, and fed to its parser
+  # (uncompressed / suffix-compressed) and re-packed; what the library emits is judged by TLC (PackAs / RepackAs)
+  free.sort(key=core.canon)
+  built = set()
+  for st in free:
+    k = core.canon(W.with_style(st, 0))
+    if k not in built:
+      built.add(k)
+      items.append((0, W.with_style(st, 0), False, True))
+    if st[-1]["cmp"] in (0, 2):      # (the parser sees all four styles in the replay above; re-packing what it parsed: two)
+      items.append((0, st, True, True))
+  if not built:
+    raise core.Machinery("no free-form case (DNS names sharing a suffix) was exported: PackAs / RepackAs would go unexercised")
   traces = core.run_driver("props.C14:drive", items)
   tm["random_driver"] = round(time.time() - t0, 1)
   _validate(ctx, traces, lay)
@@ -189,25 +208,59 @@ def _run(ctx, quick):
 def _corrupt(traces):
   """negative control: one byte of one serialisation changed in a copy of a trace"""
   for t in traces:
-    if all(e["wf"] for e in t) and len(t) == 4 and len(t[1]["obs"]["hdr"]) > 20:
+    if all(e["wf"] for e in t) and len(t) == 4 and len(t[1]["obs"]["hdr"]) > 20 and not W.free_form(t[0]["args"]["pkt"]):
       bad = copy.deepcopy(t)
       bad[1]["obs"]["hdr"][17] ^= 1
       return bad
   raise core.Machinery("no well-formed Build/Pack/Parse/Repack trace to corrupt for the negative control")
 
 
+def _wrong_names(traces):
+  """negative controls for the relation that judges free-form serialisations: in a copy of a Build/Pack trace the
+  bytes are those of another message - (a) one label dropped from the last name that has three or more (what a
+  pointer to the wrong label decodes to), every length and checksum around it consistent; (b) the right message
+  with its last pointer aimed one byte off, checksums again consistent"""
+  out = []
+  for t in traces:
+    stack = t[0]["args"]["pkt"]
+    if not (t[0]["a"] == "Build" and len(t) == 4 and all(e["wf"] for e in t) and W.free_form(stack)):
+      continue
+    other = copy.deepcopy(stack)
+    recs = other[-1]["ans"] + other[-1]["auth"] + other[-1]["add"]
+    long_ = [r for r in recs if len(r["name"]) >= 3]
+    if not long_:
+      continue
+    del long_[-1]["name"][1]
+    a = copy.deepcopy(t)
+    b = W.encode(W.with_style(other, 2))
+    a[1]["obs"] = {"hdr": list(b), "pay": 0}
+    out.append(a[:2])
+    body = bytearray(W.dns_bytes(dict(stack[-1], cmp=2)))
+    ptrs = [i for i in W.dns_pointer_offsets(bytes(body))]
+    if ptrs:
+      body[ptrs[-1] + 1] ^= 1
+      c = copy.deepcopy(t)
+      c[1]["obs"] = {"hdr": list(W.encode(stack[:-1] + [{"p": "rawb", "data": list(body)}])), "pay": 0}
+      out.append(c[:2])
+    return out
+  raise core.Machinery("no free-form Build/Pack trace to derive the negative controls from")
+
+
 def _validate(ctx, traces, lay):
-  bad = _corrupt(traces)
-  slim = [[{k: e[k] for k in ("a", "args", "obs", "wf")} for e in t] for t in traces + [bad]]
+  bads = [_corrupt(traces)] + _wrong_names(traces)
+  slim = [[{k: e[k] for k in ("a", "args", "obs", "wf")} for e in t] for t in traces + bads]
   r, rej = tracecheck.validate("packet", "PktWireTrace", "PktWire_Trace.cfg", slim, tag="C14")
   ctx.add_model("PktWireTrace (validation of %d library traces, invariants on every recorded packet)" % len(traces), r)
-  if len(traces) not in [t for t, _ in rej]:
-    raise tlc.TLCError("negative control (one corrupted byte) was accepted by PktWireTrace")
+  rejected = [t for t, _ in rej]
+  for i in range(len(bads)):
+    if len(traces) + i not in rejected:
+      raise tlc.TLCError("negative control %d (%s) was accepted by PktWireTrace"
+                         % (i, "one corrupted byte" if i == 0 else "free-form message with other names / a pointer one byte off"))
   from harness.adapters_c14 import Adapter
   ad = Adapter(layouts=lay)
   nrej = 0
   for t, matched in rej:
-    if t == len(traces):
+    if t >= len(traces):
       continue
     ev = traces[t][matched]
     if ev["a"] == "Feed":
@@ -216,22 +269,46 @@ def _validate(ctx, traces, lay):
     nrej += 1
     # TLC gave the verdict; the mirror is used only to name the layer / field for the signature
     ad.stack = traces[t][0]["args"]["pkt"]
-    sig = ad.signature(dict(a=ev["a"], exp=_mirror_exp(ev["a"], ad.stack)), ev.get("raw", ev["obs"]))
+    if ev["a"] in ("Pack", "Repack") and W.free_form(ad.stack) and ev["wf"]:
+      sig = {"action": ev["a"], "observed": "not_a_serialisation_of_the_message", "layer": "dns", "free_form": True,
+             "what": W.dns_diagnose(ad.stack, bytes(ev["obs"]["hdr"]))}
+    else:
+      prev = traces[t][matched - 1] if matched else None
+      sent = None                   # the bytes the parser was given, when the stack does not determine them
+      if prev is not None and W.free_form(ad.stack):
+        sent = prev["obs"]["hdr"] if prev["a"] == "Pack" else prev["args"]["wire"]["hdr"] if prev["a"] == "Feed" else None
+      sig = ad.signature(dict(a=ev["a"], exp=_mirror_exp(ev["a"], ad.stack, sent)), ev.get("raw", ev["obs"]))
     sig["via"] = "trace"
     ctx.report(sig, dict(trace=slim[t][:matched + 1], failing_step=matched, raw_observation=ev.get("raw"),
                          note="TLC rejected the trace at this event"))
+  # vacuity: the relational actions are exercised only here - some free-form trace of either kind must have
+  # been accepted to its end (acceptance of its Pack / Repack event is only possible through PackAs / RepackAs)
+  okfree = collections.Counter()
+  for i, t in enumerate(traces):
+    if i not in rejected and W.free_form(t[0]["args"]["pkt"]) and t[-1]["a"] == "Repack":
+      okfree[t[0]["a"]] += 1
+  free_rej = any(t < len(traces) and W.free_form(traces[t][0]["args"]["pkt"]) for t in rejected)
+  if not free_rej and (okfree["Build"] == 0 or okfree["Feed"] == 0):
+    raise tlc.TLCError("no free-form trace was validated to its end (Build: %d, Feed: %d): PackAs / RepackAs unexercised"
+                       % (okfree["Build"], okfree["Feed"]))
   ctx.traces += len(traces)
   for t in traces:
     ctx.case(core.fp(t[0]["args"]["pkt"]), nontrivial=len(t[0]["args"]["pkt"]) > 1)
   if traces and len(ctx.samples) < 5:
     ctx.samples.append(slim[0])
   ctx.notes["trace_validation"] = dict(traces=len(traces), events=sum(len(t) for t in traces), rejected=nrej,
-                                       negative_control_rejected=True)
+                                       negative_controls_rejected=len(bads),
+                                       free_form_accepted=dict(okfree))
 
 
-def _mirror_exp(a, stack):
+def _mirror_exp(a, stack, sent=None):
   try:
-    b, filled, _ = W.assemble(stack)
+    if sent is not None:            # FillAs in PktWireLayers.tla: the enclosing headers around the bytes actually sent
+      n = len(W.encode(stack[:-1]))
+      b, filled, _ = W.assemble(stack[:-1] + [{"p": "rawb", "data": list(sent[n:])}])
+      filled[-1] = W.fill(stack[-1], b"", None)
+    else:
+      b, filled, _ = W.assemble(stack)
   except Exception:
     return {"hdr": [], "pay": 0, "view": []}
   n = W.pay_len(stack)
@@ -297,6 +374,8 @@ def randomise(rnd, tpl):
       for f in ("key", "seq"):
         L[f] = [rnd.randint(0, 255) for _ in L[f]]
   last = stack[-1] if stack else None
+  if last is not None and last["p"] == "dns":
+    last["cmp"] = rnd.choice(W.styles_of(stack)) if W.free_form(stack) else 0     # the style of the oracle's bytes (Feed)
   if last is not None and last["p"] == "raw":
     n = rnd.choice(LENS) if rnd.random() < 0.5 else rnd.randint(0, 1500)
     if stack[0].get("type", 9999) < 1536:
@@ -327,11 +406,11 @@ def _wf_bytes(o):
 
 def drive(arg):
   """one random packet through the real library; returns the recorded trace"""
-  seed, tpl, feed = arg
+  seed, tpl, feed = arg[:3]
   from harness.adapters_c14 import Adapter
   rnd = random.Random(seed)
   ad = Adapter()
-  stack = randomise(rnd, tpl)
+  stack = copy.deepcopy(tpl) if len(arg) > 3 and arg[3] else randomise(rnd, tpl)
   tr = []
 
   def emit(a, args, largs=None):
